@@ -3,6 +3,7 @@ import Soa.Spec.Vec
 import Soa.Lemmas.PerField
 import Soa.Lemmas.Loops
 import Soa.Lemmas.SpecRetain
+import Soa.Lemmas.SpecRetainW
 import Soa.Model.Pinned
 import Soa.Extracted.Bodies
 import Soa.Lemmas.SkelTie
@@ -211,6 +212,53 @@ theorem retain (dr : Bool) (keep : Nat → Bool) (hc : c.lock n) :
     · show L.vis = S.vis
       rw [hL3, hF2, hS3]
 
+/-- `retain_mut` (and `retain`) with a callback that **writes** to the element it is shown: what is
+    kept are the written elements for which the callback answered `true`, in order; the callback is
+    shown every element exactly once, in index order, as `Vec::retain_mut` shows it (before its own
+    write).  `touch k k = some (l, id)`: at call `k` leaf `l` of the element is overwritten with `id`
+    (any leaf number; one outside the struct writes nothing on either side). -/
+theorem retain_mut (dr : Bool) (keep : Nat → Bool) (touch : Nat → Nat → Option (Nat × Nat)) (hc : c.lock n) :
+    Refines c (Model.retain dr c keep none touch) (Spec.retain dr c.rows keep none touch) ∧
+      (Model.retain dr c keep none touch).vis = (Spec.retain dr c.rows keep none touch).vis ∧
+      (Spec.retain dr c.rows keep none touch).vis = c.rows.map Elem.ids := by
+  have hlen := rows_len n c hc
+  have hL := Lp.retainLoopW_rows keep touch n n 0 0 c [] [] {} [] hc (by omega) (by simp)
+  have hF := RetainIdx.loopW_filter keep (Lp.updOf touch) c.rows
+  rw [hlen] at hF
+  simp only at hL hF
+  have hS := Spec.retain_touch dr keep touch c.rows
+  unfold Model.retain
+  rw [firstLen_lock c n hc]
+  dsimp only
+  generalize Model.retainLoop keep none touch n 0 0 c [] {} [] = L at hL ⊢
+  generalize Spec.retain dr c.rows keep none touch = S at hS ⊢
+  generalize RetainIdx.loopW keep (Lp.updOf touch) n 0 0 c.rows [] = R at hL hF
+  obtain ⟨hL1, hL2, hL3, hL4, hL5, hL6⟩ := hL
+  obtain ⟨hF2, hF3, _, _⟩ := hF
+  obtain ⟨hS1, hS2, hS3, hS4, hS5⟩ := hS
+  have hb : L.boom = false := hL4
+  by_cases hd : L.del > 0
+  · simp only [hb, hd, Bool.false_eq_true, ↓reduceIte]
+    have ht := truncateLoop_ok dr (n - L.del) (n - (n - L.del) + 1) n L.c {} hL5 (by omega)
+    unfold Model.truncate
+    rw [firstLen_lock _ n hL5]
+    simp only at ht
+    refine ⟨⟨by rw [hS1]; exact ht.1, ?_, by rw [ht.2.2.2.2.1, hS4]; rfl, by rw [ht.2.2.2.2.2, hS5],
+      ⟨_, ht.2.2.1⟩, same_trans _ _ _ hL6 ht.2.2.2.1, by intro hh; rw [ht.1] at hh; cases hh⟩, ?_, hS3⟩
+    · show (Model.truncateLoop dr (n - L.del) (n - (n - L.del) + 1) L.c {}).st.rows = S.st
+      rw [ht.2.1, hL1, hL2, hS2]; exact hF3
+    · show L.vis = S.vis
+      rw [hL3, hF2, hS3]
+  · simp only [hb, hd, Bool.false_eq_true, ↓reduceIte]
+    refine ⟨⟨by rw [hS1], ?_, by rw [hS4]; rfl, by rw [hS5], ⟨n, hL5⟩, hL6, by atom⟩, ?_, hS3⟩
+    · show L.c.rows = S.st
+      have hz : R.2.1 = 0 := by rw [← hL2]; omega
+      have hRl : R.1.length = n := by rw [← hL1]; exact rows_len n _ hL5
+      rw [hz, Nat.sub_zero, List.take_of_length_le (by omega)] at hF3
+      rw [hL1, hS2]; exact hF3
+    · show L.vis = S.vis
+      rw [hL3, hF2, hS3]
+
 /-- `Extend<T>` / `FromIterator`: pushing the items one by one appends their rows -/
 theorem extend : ∀ (es : List Cols) (c : Cols) (n : Nat), c.lock n →
     (∀ e ∈ es, e.lock 1 ∧ c.same e) →
@@ -313,7 +361,8 @@ theorem toVec (hc : c.lock n) : Refines c (Model.toVec c) (Spec.toVec c.rows) :=
 inductive Op where
   | push (e : Cols) | pop | insert (i : Nat) (e : Cols) | replace (i : Nat) (e : Cols)
   | remove (i : Nat) | swapRemove (i : Nat) | truncate (k : Nat) | clear
-  | retain (keep : Nat → Bool) | extend (es : List Cols) | resize (k : Nat) (e : Cols)
+  | retain (keep : Nat → Bool) | retainMut (keep : Nat → Bool) (touch : Nat → Nat → Option (Nat × Nat))
+  | extend (es : List Cols) | resize (k : Nat) (e : Cols)
   | splitOff (i : Nat) | extendFromSlice (d : Cols) | append (d : Cols)
 
 /-- arguments have the container's shape; elements are single rows -/
@@ -328,6 +377,7 @@ def mstep (dr : Bool) (c : Cols) : Op → Model.Out
   | .replace i e => Model.replace dr c i e | .remove i => Model.remove c i
   | .swapRemove i => Model.swapRemove c i | .truncate k => Model.truncate dr c k
   | .clear => Model.clear dr c | .retain keep => Model.retain dr c keep none (fun _ _ => none)
+  | .retainMut keep touch => Model.retain dr c keep none touch
   | .extend es => Model.extend c es | .resize k e => Model.resize dr c k e
   | .splitOff i => Model.splitOff c i | .extendFromSlice d => Model.extendFromSlice c d
   | .append d => Model.append c d
@@ -337,6 +387,7 @@ def sstep (dr : Bool) (rs : List Elem) : Op → Spec.Out
   | .replace i e => Spec.replace dr rs i e.rows | .remove i => Spec.remove rs i
   | .swapRemove i => Spec.swapRemove rs i | .truncate k => Spec.truncate dr rs k
   | .clear => Spec.clear dr rs | .retain keep => Spec.retain dr rs keep none (fun _ _ => none)
+  | .retainMut keep touch => Spec.retain dr rs keep none touch
   | .extend es => Spec.extend rs (es.map Cols.rows).flatten | .resize k e => Spec.resize dr rs k e.rows
   | .splitOff i => Spec.splitOff rs i | .extendFromSlice d => Spec.extendFromSlice rs d.rows
   | .append d => Spec.append rs d.rows
@@ -354,6 +405,7 @@ theorem step_refines (dr : Bool) (op : Op) (hc : c.lock n) (hw : op.wf c) :
   | truncate k => exact truncate dr k hc
   | clear => exact clear dr hc
   | retain keep => exact (retain dr keep hc).1
+  | retainMut keep touch => exact (retain_mut dr keep touch hc).1
   | extend es => exact extend es c n hc hw
   | resize k e => exact resize dr k hc hw.1 hw.2
   | splitOff i => exact splitOff i hc
